@@ -53,7 +53,7 @@ typedef struct {
   int cblog;
 } src_t;
 
-typedef struct { OggVorbis_File vf; src_t src; int live; int opened; file_t *F; } hnd_t;
+typedef struct { OggVorbis_File vf; src_t src; int live; int opened; file_t *F; long long delivered; } hnd_t;
 static hnd_t H[MAXH];
 static int g_cblog=0;
 
@@ -115,7 +115,7 @@ static void ev_state(int h){
   ev_i("h",h);
   ev_i("rs",vf->ready_state); ev_i("sk",vf->seekable); ev_i("nl",vf->links); ev_i("cur",vf->current_link);
   ev_i("tell",vf->pcm_offset); ev_i("off",vf->offset);
-  { long long ta=vf->pcm_offset; if(!vf->seekable && x->F && vf->current_link>=0 && vf->current_link<x->F->nlinks) ta+=x->F->start[vf->current_link]; ev_i("tella",ta); }
+  ev_i("tella", vf->seekable? (long long)vf->pcm_offset : x->delivered);
   ev_i("hs", vf->vi? vorbis_synthesis_halfrate_p(vf->vi) : -1);
   ev_i("cl",x->src.closes); ev_b("z",is_zero(vf,sizeof *vf));
   ev_i("nrd",x->src.nread-cb0[h][0]); ev_i("nsk",x->src.nseek-cb0[h][1]); ev_i("ntl",x->src.ntell-cb0[h][2]);
@@ -169,7 +169,7 @@ static void do_open(int h,file_t *F,const char *mode,long init){
   memset(&x->src,0,sizeof x->src); x->src.F=F; x->src.cblog=g_cblog;
   x->src.sr_mode=keep.sr_mode; x->src.sr_arg=keep.sr_arg; x->src.sr_rng=keep.sr_rng;
   x->src.f_kind=keep.f_kind; x->src.f_at=keep.f_at; x->src.f_persist=keep.f_persist; x->src.f_on=keep.f_on;
-  x->F=F;
+  x->F=F; x->delivered=0;
   if(!strcmp(mode,"stream")) x->src.noseek=1;
   if(!strcmp(mode,"notell")) x->src.notell=1;
   call_begin(h);
@@ -195,8 +195,9 @@ static long do_readf(int h,long len){
   if(n>0 && x->F && pcm){
     /* position at which the returned chunk actually lives: t1-n<<hs (vorbisfile updates pcm_offset while fetching) */
     long ta=vf->pcm_offset-((long)n<<hs);
-    /* a non-seekable handle counts positions per link: make them absolute with the link counter */
-    if(!vf->seekable && vf->current_link>=0 && vf->current_link<x->F->nlinks) ta+=x->F->start[vf->current_link];
+    /* a non-seekable handle has no file-wide position: its position is the number of samples delivered so far */
+    if(!vf->seekable) ta=x->delivered;
+    x->delivered+=(long long)n<<hs;
     vorbis_info *vi=ov_info(vf,-1); int ch=vi?vi->channels:0;
     long id=-1, mf=n;
     if(ident_at(x->F,hs,ta,pcm,ch,n)){ id=ta; mf=0; }
@@ -235,7 +236,8 @@ static void do_readi(int h,long len,int word,int sgned,int be){
     vorbis_info *vi=ov_info(vf,-1); int ch=vi?vi->channels:0; int w=(word==1)?1:2;
     long frames = ch>0? n/(w*ch) : 0;
     long ta=vf->pcm_offset-(frames<<hs);
-    if(!vf->seekable && vf->current_link>=0 && vf->current_link<x->F->nlinks) ta+=x->F->start[vf->current_link];
+    if(!vf->seekable) ta=x->delivered;
+    x->delivered+=(long long)frames<<hs;
     ev_i("ch",ch); ev_i("frames",frames); ev_i("ta",ta);
     /* locate: compare with quantised reference at ta */
     int ok=0; file_t *F=x->F;
@@ -400,7 +402,7 @@ int main(int argc,char **argv){
   ev_fd=open(argv[2],O_WRONLY|O_CREAT|O_TRUNC|O_APPEND,0644); if(ev_fd<0){ perror(argv[2]); return 2; }
   int i=0;
   while(i<nlines){
-    char *ln=strdup(lines[i]); char *tok[40]; int nt=split(ln,tok,40);
+    char *ln=strdup(lines[i]); char *tok[80]; int nt=split(ln,tok,80);
     if(nt==0||tok[0][0]=='#'){ free(ln); i++; continue; }
     if(!strcmp(tok[0],"link")&&nt>=7){
       int id=atoi(tok[1]); int sig=0,managed=0; long mx=-1,nm=-1,mn=-1;
@@ -409,7 +411,7 @@ int main(int argc,char **argv){
         if(!g_links[id]){ ev_begin("LinkFail"); ev_i("id",id); ev_end(); } }
       i++;
     } else if(!strcmp(tok[0],"file")&&nt>=3){
-      int id=atoi(tok[1]); int n=nt-2; link_t *ls[32]; layout_t lay[32]; int ok=1; if(n>32)n=32;
+      int id=atoi(tok[1]); int n=nt-2; link_t *ls[64]; layout_t lay[64]; int ok=1; if(n>64)n=64;
       for(int k=0;k<n;k++){ int lid; parse_layout(tok[2+k],&lay[k],&lid,1000+id*100+k); if(lid<0||lid>=MAXLINK||!g_links[lid]) ok=0; else ls[k]=g_links[lid]; }
       if(ok&&id>=0&&id<MAXFILE){ if(g_files[id]) file_free(g_files[id]); g_files[id]=file_build(id,n,ls,lay); }
       i++;
